@@ -464,6 +464,15 @@ async fn run(case: Value, fault_mode: bool) -> Outcome {
         sim::probe("probe.range_partitioning_run");
     }
     sim::probe_n("probe.input_partitions", n_in as u64);
+    // every output was read to its end while all streams were still alive: everything the exchange had
+    // buffered has been handed out, so its reservations must be back at zero (not only after the drop)
+    if !any_drop {
+        if let Some(r) = sim::with(|s| s.reserved_at_last_eof) {
+            if r != 0 {
+                return violation("memory-held-after-last-batch", format!("{r} bytes were still reserved when the last output reached end-of-stream (every row had been delivered, all streams still alive)"));
+            }
+        }
+    }
     // quiescence invariants
     if let Some(v) = ctx.quiescence_violation(&[&source]) {
         return v;
